@@ -9,6 +9,8 @@ CONFIG = dict(
             dict(name="model", code=702, kind="eq"),
             dict(name="names-values-units", code=703, kind="holds", predicate=True),
             dict(name="sample-group-names", code=706, kind="holds", predicate=True),
+            dict(name="sample-group-names-under-flatten-prefix", code=708, kind="holds", predicate=True),
+            dict(name="name-borrowed-iff-at-most-100-bytes", code=707, kind="holds", predicate=True),
         ]),
     ],
     timeout=3000,
